@@ -42,30 +42,84 @@ def _switch_variants(body, facts, bb):
     return out
 
 
+def _retry_fn(facts, module):
+    """the classification function the module's retry loops use: its own, or (the two copies deduplicated) the sibling module's"""
+    own = module + "::is_retryable_error"
+    if own in facts.bodies:
+        return own
+    for other in ("fleet", "async_fleet"):
+        if other + "::is_retryable_error" in facts.bodies:
+            return other + "::is_retryable_error"
+    return own
+
+
+def _counter_loop(facts, R, b, sym, fn):
+    """`let mut attempt = 0; while attempt < max_attempts { ..; attempt += 1; }`: returns the loop-head block (the test), after
+    checking that the counter starts at 0, is compared with retry_policy.max_attempts, is only ever incremented by one, and is
+    incremented on every way round the loop (a `continue` that skipped it would retry without bound)."""
+    heads = []
+    for i in sorted(b.live_blocks()):
+        t = b.term(i)
+        if t["k"] == "switch" and t.get("on_ty") == "bool" and i in b.reachable(b.succs(i)):
+            e = sym.op(t["on"])
+            if e[0] == "bin" and e[1] == "Lt" and e[2][0] == "local" and render(e[3]).endswith("options.retry_policy.max_attempts"):
+                heads.append((i, e[2][1]))
+    if len(heads) != 1:
+        return None
+    H, c = heads[0]
+    t = b.term(H)
+    body_t = t["otherwise"] if [v for v, _ in t["targets"]] == [0] else [tb for v, tb in t["targets"] if v == 1][0]
+    inits, incs, other = [], [], []
+    for i, j, st in b.assigns():
+        if st["place"]["l"] != c or st["place"]["p"] or i not in b.live_blocks():
+            continue
+        v = sym.at(i, j).rvalue(st["rv"])
+        if const_val(v) == 0 and H not in b.reachable((H,)) or (const_val(v) == 0 and i not in b.reachable((body_t,))):
+            inits.append((i, j))
+        elif v[0] == "field" and v[2] == "0" and v[1][0] == "bin" and v[1][1] in ("AddWithOverflow", "Add") and v[1][2] == ("local", c, b.debug_name(c)) and const_val(v[1][3]) == 1:
+            incs.append((i, j))
+        elif v[0] == "bin" and v[1] == "Add" and v[2] == ("local", c, b.debug_name(c)) and const_val(v[3]) == 1:
+            incs.append((i, j))
+        else:
+            other.append((i, j))
+    w = must_cross(b, [(body_t, 0)], [(H, 0)], incs, after_start=False)
+    R.check(len(inits) == 1 and bool(incs) and not other and w is None and b.dominates(inits[0][0], H), "bounded-loop", fn, "range 0..max_attempts",
+            "the attempt counter is not `0, then +1 on every way round the loop` (initialisations %s, increments %s, other stores %s, a round without increment: %s)"
+            % (inits, incs, other, w), t.get("span"), "attempt = 0; while attempt < retry_policy.max_attempts { ..; attempt += 1 }", path=w)
+    return H
+
+
 def analyse_loop(facts, R, path, module):
     b = facts.body(path)
     sym = Sym(b)
     fn = b.path
     # the loop head: Range::next on 0..max_attempts
     nexts = [(i, t) for i, t in b.calls() if t["callee"]["name"] == "next" and "Range" in (t["callee"].get("self_ty") or "")]
-    if len(nexts) != 1:
+    if not nexts:
+        N = _counter_loop(facts, R, b, sym, fn)
+        if N is None:
+            R.bad("bounded-loop", fn, "range-loop", "expected exactly one `for attempt in a..b` loop (or a counted `while attempt < max_attempts`), found none", b.span)
+            return
+        nt = b.term(N)
+    elif len(nexts) != 1:
         R.bad("bounded-loop", fn, "range-loop", "expected exactly one `for attempt in a..b` loop, found %d" % len(nexts), b.span)
         return
-    N, nt = nexts[0]
-    it = sym.op(nt["args"][0])
-    rng = None
-    for x in walk(it):
-        if x[0] == "agg" and x[1] == "std::ops::Range":
-            rng = dict(x[3])
-    # the iterator is a multiply-assigned local; look at its defining assignment instead
-    if rng is None:
-        for i, j, s in b.assigns():
-            if s["rv"].get("agg") == "adt" and s["rv"]["adt"] == "std::ops::Range":
-                rng = dict(zip(s["rv"]["fields"], [sym.op(o) for o in s["rv"]["ops"]]))
-    ok = rng is not None and const_val(rng["start"]) == 0 and render(rng["end"]).endswith("options.retry_policy.max_attempts")
-    R.check(ok, "bounded-loop", fn, "range 0..max_attempts",
-            "retry loop iterates over %s, not 0..self.options.retry_policy.max_attempts" % ({k: render(v) for k, v in (rng or {}).items()}), nt.get("span"),
-            "for attempt in 0..retry_policy.max_attempts")
+    else:
+        N, nt = nexts[0]
+        it = sym.op(nt["args"][0])
+        rng = None
+        for x in walk(it):
+            if x[0] == "agg" and x[1] == "std::ops::Range":
+                rng = dict(x[3])
+        # the iterator is a multiply-assigned local; look at its defining assignment instead
+        if rng is None:
+            for i, j, s in b.assigns():
+                if s["rv"].get("agg") == "adt" and s["rv"]["adt"] == "std::ops::Range":
+                    rng = dict(zip(s["rv"]["fields"], [sym.op(o) for o in s["rv"]["ops"]]))
+        ok = rng is not None and const_val(rng["start"]) == 0 and render(rng["end"]).endswith("options.retry_policy.max_attempts")
+        R.check(ok, "bounded-loop", fn, "range 0..max_attempts",
+                "retry loop iterates over %s, not 0..self.options.retry_policy.max_attempts" % ({k: render(v) for k, v in (rng or {}).items()}), nt.get("span"),
+                "for attempt in 0..retry_policy.max_attempts")
     # the attempt outcome switch
     A = None
     for i in sorted(b.live_blocks()):
@@ -84,7 +138,7 @@ def analyse_loop(facts, R, path, module):
     if A is None:
         # the attempt may live in a helper (inlined) instead of an immediately-invoked closure: the attempt outcome is then the
         # Ok/Err test whose Err edge dominates the retry decision (is_retryable_error)
-        retry_calls = [i for i, t in b.calls() if is_call(("call", t["callee"]["path"], (), i), module + "::is_retryable_error")]
+        retry_calls = [i for i, t in b.calls() if is_call(("call", t["callee"]["path"], (), i), _retry_fn(facts, module))]
         for i in sorted(b.live_blocks()):
             t = b.term(i)
             if t["k"] != "switch" or t.get("threaded_switch"):
@@ -121,7 +175,7 @@ def analyse_loop(facts, R, path, module):
         t = b.term(i)
         if t["k"] == "switch":
             e = sym.op(t["on"])
-            if is_call(e, module + "::is_retryable_error"):
+            if is_call(e, _retry_fn(facts, module)):
                 tt = [x for v, x in t["targets"] if v != 0]
                 true_t = t["otherwise"] if [v for v, _ in t["targets"]] == [0] else (tt[0] if tt else None)
                 retry_sw.append((i, true_t, e))
@@ -135,7 +189,13 @@ def analyse_loop(facts, R, path, module):
                 "after a non-retryable error (application reply or otherwise) the loop can run another attempt", b.term(S).get("span"),
                 "loop head reachable from the Err arm only through the retryable edge")
     # Ok result carries the value
-    finals = [(i, j, s) for i, j, s in b.assigns() if s["rv"].get("agg") == "adt" and s["rv"]["adt"] == "fleet::RemoteResult" and s["place"]["l"] == 0]
+    # (the literal may be built by a small constructor inlined here: then it reaches the return place by one move)
+    into_ret = {0}
+    for i, j, s in b.assigns():
+        if s["place"]["l"] == 0 and not s["place"]["p"] and "use" in s["rv"] and op_place(s["rv"]["use"]) and not op_place(s["rv"]["use"])["p"]:
+            into_ret.add(op_place(s["rv"]["use"])["l"])
+    finals = [(i, j, s) for i, j, s in b.assigns() if s["rv"].get("agg") == "adt" and s["rv"]["adt"] == "fleet::RemoteResult" and s["place"]["l"] in into_ret and not s["place"]["p"]
+              and i in b.live_blocks()]
     R.check(len(finals) == 2, "stop-rows", fn, "two result rows", "expected an Ok row and an exhausted/stop row, found %d" % len(finals), b.span)
     last_error_local = None
     for i, j, s in finals:
@@ -157,6 +217,15 @@ def analyse_loop(facts, R, path, module):
                 if dd[0] == "assign" and "use" in dd[3] and op_place(dd[3]["use"]):
                     cand.add(op_place(dd[3]["use"])["l"])
             last_error_local = next(iter(cand)) if len(cand) == 1 else (p["l"] if p else None)
+            # (through a constructor's parameter the variable arrives by more than one move: follow single-definition moves)
+            for _ in range(6):
+                if last_error_local is None:
+                    break
+                ds_ = b.defs_of(last_error_local)
+                if len(ds_) == 1 and ds_[0][0] == "assign" and "use" in ds_[0][3] and op_place(ds_[0][3]["use"]) and not op_place(ds_[0][3]["use"])["p"]:
+                    last_error_local = op_place(ds_[0][3]["use"])["l"]
+                else:
+                    break
     # last-error-kept
     if last_error_local is not None:
         stores = []
@@ -201,7 +270,7 @@ def analyse_loop(facts, R, path, module):
 
 
 def retryable_table(facts, R, module):
-    b = facts.body(module + "::is_retryable_error")
+    b = facts.body(_retry_fn(facts, module))
     sym = Sym(b)
     rows_true = []
     for i, j, s in b.assigns():
@@ -307,6 +376,9 @@ def run(facts, R):
                 # fresh: a store `*client = Some(created)` precedes on all paths
                 stores = [(x, y) for x, y, st in b.assigns() if st["place"]["p"] and st["place"]["p"][-1] == "deref" and "Option" in b.local_ty(st["place"]["l"])
                           and sym.rvalue(st["rv"])[0] == "agg" and sym.rvalue(st["rv"])[2] == "Some" and "connect" in render(sym.rvalue(st["rv"]))]
+                # ... or `client.insert(created)` (stores Some(created) and hands back a reference to it)
+                stores += [term_pt(b, x) for x, t_ in b.calls() if t_["callee"]["name"] == "insert" and "Option" in t_["callee"]["path"] and len(t_["args"]) == 2
+                           and "connect" in render(sym.op(t_["args"][1]))]
                 w = must_cross(b, [(0, 0)], [(i, j)], stores, after_start=False)
                 n_fresh += 1
                 R.check(stores and w is None and "connect" in v, "dead-client-dropped", b.path, "fresh client is stored",
@@ -318,6 +390,9 @@ def run(facts, R):
         sym = Sym(b)
         stores = [(x, y) for x, y, st in b.assigns() if st["place"]["p"] and st["place"]["p"][-1] == "deref" and "Option" in b.local_ty(st["place"]["l"])
                   and sym.rvalue(st["rv"])[0] == "agg" and sym.rvalue(st["rv"])[2] == "None"]
+        # ... or `client.take()` (leaves None in the slot; what becomes of the old client does not matter)
+        stores += [term_pt(b, x) for x, t_ in b.calls() if t_["callee"]["name"] == "take" and "Option" in t_["callee"]["path"] and t_["args"]
+                   and ("Client" in " ".join(t_.get("arg_tys", [])) or "client" in render(sym.op(t_["args"][0])))]
         w = must_cross(b, [(0, 0)], return_points(b), stores, after_start=False)
         R.check(stores and w is None, "dead-client-dropped", b.path, "slot := None", "invalidate_client does not clear the cached client on all paths", b.span, path=w)
 
